@@ -17,8 +17,13 @@ package backendpb
 //@ interface grpc.ClientStreamingClient method Send
 //@   modifies sendFails, sendsOK
 //@   ensures sendFails == old(sendFails) + (result != nil ? 1 : 0) && sendsOK == old(sendsOK) + (result == nil ? 1 : 0)
+// closeFails counts the CloseAndRecv calls that returned an error other than
+// the end of the stream: the backend did not acknowledge the batch.
+//@ import io io
+//@ ghost closeFails int
 //@ interface grpc.ClientStreamingClient method CloseAndRecv
-//@   modifies nothing
+//@   modifies closeFails
+//@   ensures closeFails == old(closeFails) + (r1 != nil && !errIs(r1, io.EOF) ? 1 : 0)
 //@ interface DNSServiceClient method SaveDevicesBillingStat
 //@   modifies nothing
 //@   ensures r1 == nil ==> ref(r0) != 0
@@ -43,11 +48,14 @@ package backendpb
 //@   held *
 //@   requires b != nil && ref(b.client) != 0 && b.logger != nil
 //@   requires counts-are-not-negative: forall k agd.DeviceID :: has(records, k) && records[k] != nil ==> records[k].Queries >= 0
-//@   modifies sendFails, sendsOK, tsTime
+//@   modifies sendFails, sendsOK, tsTime, closeFails
 //@   atcall Send assert what-is-sent-for-a-device-is-its-own-count: arg1 != nil && arg1.DeviceId == deviceID && arg1.Queries == record.Queries
 //@   ensures a-failed-send-is-reported: sendFails > old(sendFails) ==> err != nil
 //@   ensures sendFails <= old(sendFails) + 1
-//@   loop 1 invariant sendFails == old(sendFails)
+// ... and so is a batch that the backend did not acknowledge, whatever the
+// reason it gave (the recorder keeps the records only when told of a failure).
+//@   ensures an-unacknowledged-batch-is-reported: closeFails > old(closeFails) ==> err != nil
+//@   loop 1 invariant sendFails == old(sendFails) && closeFails == old(closeFails)
 
 // ---------------------------------------------------------------------------
 // C14: what a synchronisation installs for a profile is what the backend
